@@ -7,7 +7,7 @@
 //	gei <nonce> <chainID> <h>                 auxpow.GetExpectedIndex
 //	apcheck <rootOk> <nTxIn> <script> <auxRootRev> <h> <auxIndex> <chainID> <hash>
 //	                                          AuxPow.Check on an AuxPow rebuilt from the op
-//	run …                                     blockchain.RunPrograms (see run.go)
+//	run …                                     blockchain.RunPrograms (see harness/runop)
 //	schn <code> <param>                       checkSchnorrSignatures alone (panic / no panic)
 //	cc <code> <param>                         checkCrossChainSignatures alone, cms: crypto.CheckMultiSigSignatures
 //	cb  <regime> <pow> <fee> <dposReward> <blockReward> <frc> <rewardCR> <rewardArb> <n> {<value> <tag>}*n <k> {<tag> <amount>}*k
@@ -182,11 +182,11 @@ func ceilMul(v common.Fixed64, f float64) common.Fixed64 {
 }
 
 type cbOp struct {
-	reg                                                string
-	pow                                                bool
-	fee, dpos, blockReward, frc, rewardCR, rewardArb   common.Fixed64
-	outs                                               []*ctypes.Output
-	rewards                                            map[common.Uint168]common.Fixed64
+	reg                                              string
+	pow                                              bool
+	fee, dpos, blockReward, frc, rewardCR, rewardArb common.Fixed64
+	outs                                             []*ctypes.Output
+	rewards                                          map[common.Uint168]common.Fixed64
 }
 
 func parseCb(t []string) *cbOp {
